@@ -771,19 +771,23 @@ def parse_whole(text: str, eval_bases: bool) -> FGD:
     return fgd
 
 
-def generations(text1: str, cs: bool, ls: bool, eval_bases: bool) -> dict:
-    """text1 -> parse -> text2 -> parse -> text3, and whether text2 can be read the default way."""
+def generations(text1: str, cs: bool, ls: bool, eval_bases: bool, first=None) -> dict:
+    """text1 -> parse -> text2 -> parse -> text3, and whether text2 can be read the default way.
+    (`first`: text1 already parsed with this eval_bases setting.)"""
     rec = {'err': '', 'h1': sha(text1), 'h2': '', 'h3': '', 'blocks1': entity_blocks(text1), 'blocks2': [], 'default_parse': ''}
     try:
-        second = parse_whole(text1, eval_bases)
+        second = first if first is not None else parse_whole(text1, eval_bases)
         text2 = second.export(label_spawnflags=ls, custom_syntax=cs)
         rec['h2'] = sha(text2)
         rec['blocks2'] = entity_blocks(text2)
+        third = None
         try:
-            parse_whole(text2, True)
+            third = parse_whole(text2, True)
         except Exception as exc:
             rec['default_parse'] = type(exc).__name__ + ': ' + str(exc).split('\n')[0][:80]
-        text3 = parse_whole(text2, eval_bases).export(label_spawnflags=ls, custom_syntax=cs)
+        if not eval_bases or third is None:
+            third = parse_whole(text2, eval_bases)
+        text3 = third.export(label_spawnflags=ls, custom_syntax=cs)
         rec['h3'] = sha(text3)
     except Exception as exc:
         rec['err'] = type(exc).__name__ + ': ' + str(exc).split('\n')[0][:100]
@@ -847,7 +851,7 @@ def bundled(out: hlib.RecWriter, stats: dict) -> None:
             out.write(rec)
         # the generations of the file: bases resolved while reading (the default), and bases kept as names
         for mode, eval_bases in (('default', True), ('names', False)):
-            rec = generations(text, cs, ls, eval_bases)
+            rec = generations(text, cs, ls, eval_bases, first=parsed if eval_bases else None)
             rec.update({'k': 'file', 'step': 'generations', 'mode': mode, 'opts': {'cs': cs, 'ls': ls},
                         'sig': dict(sig, action='reexport', mode=mode, cs=cs, ls=ls)})
             out.write(rec)
